@@ -5,7 +5,6 @@ import (
 	"go/ast"
 	"go/token"
 	"go/types"
-	"golang.org/x/tools/go/cfg"
 	"strings"
 )
 
@@ -439,7 +438,25 @@ func checkRoundTripValidated(r *Reporter, p *Prog, pkg string, info *types.Info)
 					}
 					n++
 					key := strings.TrimSuffix(strings.TrimPrefix(exprKey(be), "("), ")") + " in " + fkey
-					signFactor := be.Op == token.MUL && (isUnitSign(info, fd.Body, be.X) || isUnitSign(info, fd.Body, be.Y))
+					// a sign factor: every definition is the constant 1 or -1 - syntactically in this function,
+					// or as the set of values that can reach this point through a spliced helper's results
+					unitVals := func(e ast.Expr) bool {
+						if objOfIdent(info, e) == nil {
+							return false
+						}
+						vals := f.ValuesUnder(e, pt, map[string]bool{})
+						if len(vals) == 0 {
+							return false
+						}
+						for _, v := range vals {
+							v = strings.Trim(v, "()")
+							if v != "1" && v != "-1" {
+								return false
+							}
+						}
+						return true
+					}
+					signFactor := be.Op == token.MUL && (isUnitSign(info, fd.Body, be.X) || isUnitSign(info, fd.Body, be.Y) || unitVals(be.X) || unitVals(be.Y))
 					as, isAssign := nd.(*ast.AssignStmt)
 					if !isAssign || len(as.Lhs) != 1 || len(as.Rhs) != 1 || ast.Unparen(as.Rhs[0]) != ast.Expr(be) {
 						r.Fail("wrap/round-trip-validated", key, p.posStr(be.Pos()), "a raw product/shift of non-constant integers is used without being bound to a variable that is validated by the inverse operation: it wraps silently for large operands")
@@ -467,12 +484,17 @@ func checkRoundTripValidated(r *Reporter, p *Prog, pkg string, info *types.Info)
 						// validated by a branch over the result (its sign): an edge whose condition,
 						// with temporaries resolved, mentions the result
 						valid = nil
-						f.forEachEdgeFact(func(e Edge, eb *cfg.Block, ft fact) {
-							k := f.KeyAt(ft.Atom, Point{eb, len(eb.Nodes) - 1})
-							if strings.Contains(k, res) || strings.Contains(k, exprKey(be)) || strings.Contains(k, f.KeyAt(be, pt)) {
-								valid = append(valid, e)
+						for _, eb := range f.G.Blocks {
+							c := condOf(eb)
+							if !eb.Live || c == nil || len(eb.Succs) != 2 {
+								continue
 							}
-						})
+							// the whole condition with named guards and temporaries resolved
+							k := f.KeyAt(c, Point{eb, len(eb.Nodes) - 1})
+							if strings.Contains(k, res) || strings.Contains(k, exprKey(be)) || strings.Contains(k, f.KeyAt(be, pt)) {
+								valid = append(valid, Edge{eb, 0}, Edge{eb, 1})
+							}
+						}
 					}
 					isValid := func(e Edge) bool {
 						for _, v := range valid {
